@@ -18,7 +18,7 @@ RULE = ('complete enumeration of the live geodepy.constants module: every Transf
         'of ITRF sets at every reference epoch occurring in the catalogue (chained = direct within 0.15 mm / 0.015 ppb / 0.015 mas '
         'and per year); monitors on __neg__, __add__ (labels and rates kept, parameters advanced by rate * days/365.25) and '
         'iers2trans (mm->m, ppb->ppm, mas->arcsec with reversed rotation signs) fed with shipped and random sets/tuples. '
-        'The enumeration is made twice: on the catalogue as imported and on the catalogue after every constant has been passed through conform7/conform14/the wrappers, negated and moved in time (at and off its reference epoch, an odd number of times).  distinct = constants + pairs + triples x epochs + random-call classes')
+        'The enumeration is made twice: on the catalogue as imported and on the catalogue after every constant has been passed through conform7/conform14/the wrappers, negated and moved in time (at and off its reference epoch, an odd number of times).  distinct = constants + pairs + triples x epochs + random-call classes While the catalogue is used, a chaining caller accumulates the next leg into every negated / re-referenced set it obtained (fields of the returned set only).')
 ASSUMPTIONS = ['first-order composition of small-parameter Helmert sets: chained parameters = sum of the parameters at a common epoch '
                '(second-order terms are < 1e-9 of the tolerances for ITRF sets)',
                'naming convention <from>_to_<to>[_suffix] as stated in geodepy/constants.py']
